@@ -368,23 +368,35 @@ class Gen:
         return " ; ".join(" ".join(str(t) for t in seg) for seg in [cfg] + self.ops)
 
 
-def case_with_fault(line, fk, fa):
+def case_with_fault(line, fk, fa, keep_unsafe=False):
     """the same history with one injected panic.  The generator's lawful simulation no longer describes the
     containers once a call has been cut short by the injected panic, so it can no longer guarantee the
     contract of the unsafe fast paths: in fault variants they are replaced by their safe counterparts
-    (insert_unchecked -> insert, get_disjoint_unchecked_mut -> get_disjoint_mut)."""
+    (insert_unchecked -> insert, get_disjoint_unchecked_mut -> get_disjoint_mut) -- unless the caller asks to keep
+    them (the driver does, and then lets the MODEL decide whether the variant stays inside the contract: a variant
+    on which the release-profile model reaches UB is outside it and is replaced by the safe rewriting)."""
     segs = line.split(" ; ")
     cfg = segs[0].split()
     cfg[2], cfg[3] = str(fk), str(fa)
     ops = []
     for seg in segs[1:]:
         t = seg.split()
-        if t[0] == "13":
+        if keep_unsafe:
+            pass
+        elif t[0] == "13":
             t[0] = "10"
         elif t[0] == "51" and t[2] == "1":
             t[2] = "0"
         ops.append(" ".join(t))
     return " ; ".join([" ".join(cfg)] + ops)
+
+
+def has_unsafe_ops(line):
+    for seg in line.split(" ; ")[1:]:
+        t = seg.split()
+        if t[0] == "13" or (t[0] == "51" and t[2] == "1"):
+            return True
+    return False
 
 
 # ---------------------------------------------------------------------------
@@ -865,6 +877,29 @@ def clone_fault_bases():
                  f"{c} 2 3 ; 122 3 0 5 ; 131 3 0 6 ; 122 3 0 6 ; 110 3 20 8 ; 161 2 3")
         b.append(f"0 0 0 0 3 3 3 3 ; 110 2 1 6 ; 110 3 4 5 ; 110 3 5 6 ; 110 3 6 7 ; "
                  f"{c} 2 3 ; 122 3 0 6 ; 131 3 0 6 ; 161 2 3")
+    return b
+
+
+def panic_slice_bases():
+    """states reached THROUGH A CAUGHT PANIC, then looked at by every kind of observer: the quantifier of every
+    property ("every reachable state") includes them, and a suite of honest histories never visits them.  The driver
+    enumerates every fault position (==, Clone, Drop of each object, closure / source) of these bases."""
+    b = known_fault_bases() + clone_fault_bases() + consumer_fault_bases()[::3]
+    fill_m = " ; ".join(f"10 0 {2 * i + 1} {5 + i} {2 * i + 2} {7 + i}" for i in range(4))       # classes 5..8
+    fill_s = " ; ".join(f"110 2 {i + 1} {5 + i}" for i in range(4))
+    tail_m = "40 0 0 9 100 ; 40 0 3 2 100 ; 20 0 0 5 ; 61 0 1 ; 64 0 0 ; 51 0 0 100 2 5 8 ; 10 0 40 5 41 3 ; 60 0 1"
+    tail_s = "140 2 9 ; 122 2 0 5 ; 161 2 3 ; 164 2 0 ; 110 2 40 5 ; 170 0 2 3 9 0 ; 160 2 3"
+    cfg = "0 0 0 0 8 8 8 8"
+    mids = ["32 0 0 0", "32 0 1 2 6 0 7 0", "32 0 2 1 6 0", "33 0", "34 0 1 0", "34 0 2 2", "30 0 0 6", "31 0 0 5",
+            "10 0 30 6 31 3", "11 0 30 6 31 3", "12 0 30 9 31 3", "62 0 0 4 30 9 31 1 32 6 33 2 34 9 35 3 36 5 37 4",
+            "41 0 0 1 2", "43 0 1 1", "66 0 1"]
+    mids += [f"50 0 30 9 {ch} 31 3" for ch in range(12)] + [f"50 0 30 6 {ch} 31 3" for ch in (0, 1, 5, 6, 7, 9, 10)]
+    for m in mids:
+        b.append(f"{cfg} ; {fill_m} ; {m} ; {tail_m}")
+    sids = ["132 2 0 0", "132 2 1 2 6 0 7 0", "133 2", "134 2 1 0", "134 2 2 2", "130 2 0 6", "131 2 0 5", "110 2 30 6",
+            "111 2 30 6", "135 2 4 30 9 31 6 32 9 33 5", "162 2 0 4 30 9 31 6 32 9 33 5", "141 2 1 2", "166 2 3", "172 2 3"]
+    for m in sids:
+        b.append(f"{cfg} ; {fill_s} ; 110 3 20 6 ; 110 3 21 9 ; {m} ; {tail_s}")
     return b
 
 
